@@ -18,7 +18,7 @@
                           its blocks, front block first (written out in c15_abs below)            *)
 From OlaBase Require Import Bytes.
 From C15 Require Import Model Spec Sender ProofsBlock Proofs ProofsSender ProofsStream ProofsWrap Cross ProofsCross
-  ProofsHetero Multi MultiSpec ProofsMulti.
+  ProofsHetero Multi MultiSpec ProofsMulti Len32 ProofsLen32.
 Local Open Scope nat_scope.
 
 (* what "the bytes a buffer holds" means concretely *)
@@ -307,6 +307,59 @@ Example ex_mrun :
     (alloc2 st 0, free2 st 0, held2 st 0, mig_run (init2 [4; 8] [0; 1] [1]) ex_mops 0) = (2, 0, 0, (-2)%Z) /\
     (alloc2 st 1, free2 st 1, held2 st 1, mig_run (init2 [4; 8] [0; 1] [1]) ex_mops 1) = (2, 4, 0, 2%Z).
 Proof. eexists. vm_compute. repeat split. Qed.
+
+(* ================================================================== round 5 ===================
+   LENGTHS OF ANY MAGNITUDE.  All theorems above quantify over every natural length, so they
+   already cover UINT_MAX, 2^31, 2^32 - cursor ...; what was missing is that the unary model cannot
+   be EXECUTED for such lengths, so the correspondence never tried them.  These theorems make the
+   big lengths executable: any length above the bytes a buffer holds behaves, for every Read /
+   Read(string) / Peek / Pop of a queue or stack (one pool and several pools), every
+   MemoryBuffer read and every PerformWrite, exactly as "bytes held + 1" (clamp n bound = n if
+   n <= bound, else bound + 1; natlen is the same from a binary number).  Result AND state agree,
+   also in the hazard cases, with no well-formedness assumption. *)
+Theorem c15_len_any : forall st o,
+  step st o = step st
+    match o with
+    | QRead i n => QRead i (clamp n (buf_size (nth i (s_q st) [])))
+    | QReadStr i n => QReadStr i (clamp n (buf_size (nth i (s_q st) [])))
+    | QPeek i n => QPeek i (clamp n (buf_size (nth i (s_q st) [])))
+    | QPop i n => QPop i (clamp n (buf_size (nth i (s_q st) [])))
+    | SRead j n => SRead j (clamp n (buf_size (nth j (s_s st) [])))
+    | SReadStr j n => SReadStr j (clamp n (buf_size (nth j (s_s st) [])))
+    | SPop j n => SPop j (clamp n (buf_size (nth j (s_s st) [])))
+    | o => o
+    end.
+Proof. exact step_clamp. Qed.
+Print Assumptions c15_len_any.
+
+Theorem c15_len_any_multi : forall st o,
+  step2 st o = step2 st
+    match o with
+    | QRead i n => QRead i (clamp n (buf_size (blk (m_q st) i)))
+    | QReadStr i n => QReadStr i (clamp n (buf_size (blk (m_q st) i)))
+    | QPeek i n => QPeek i (clamp n (buf_size (blk (m_q st) i)))
+    | QPop i n => QPop i (clamp n (buf_size (blk (m_q st) i)))
+    | SRead j n => SRead j (clamp n (buf_size (blk (m_s st) j)))
+    | SReadStr j n => SReadStr j (clamp n (buf_size (blk (m_s st) j)))
+    | SPop j n => SPop j (clamp n (buf_size (blk (m_s st) j)))
+    | o => o
+    end.
+Proof. exact step2_clamp. Qed.
+Print Assumptions c15_len_any_multi.
+
+(* MemoryBuffer (any cursor position: the clamp bound is the buffer's total size, which is never
+   below what remains) and PerformWrite; natlen agrees with clamp on every natural. *)
+Theorem c15_len_any_membuf : forall script m,
+  mb_run m script = mb_run m (map (clamp_mread (m_size m)) script).
+Proof. exact mb_run_clamp. Qed.
+Print Assumptions c15_len_any_membuf.
+
+Theorem c15_len_any_pwrite : forall max x k,
+  xstep max x (PWrite (Some k)) =
+  xstep max x (PWrite (Some (clamp k (buf_size (nth 0 (s_q (x_st x)) []))))) /\
+  forall n bound, natlen (N.of_nat n) bound = clamp n bound.
+Proof. exact (fun max x k => conj (pwrite_clamp max x k) natlen_clamp). Qed.
+Print Assumptions c15_len_any_pwrite.
 
 (* ------------------------------------------------------------------ non-vacuity *)
 (* a history that satisfies every hypothesis above and exercises block boundaries, a stack to
